@@ -26,6 +26,8 @@ Section CQ.
   (* facts regenerated from the source: Add takes the write lock for its whole body,
      GetMessages the read lock for its whole body *)
   Variables add_locked get_locked : bool.
+  (* Go's RWMutex lets no new reader in while a writer is waiting; false = readers may overtake *)
+  Variable wpref : bool.
 
   Notation queue := (queue A).
 
@@ -115,6 +117,7 @@ Section CQ.
       step c (mkC (updf (th c) i (TWantR r)) (shq c) (outs c) (hist c) (absq c) (added c))
   | s_rlock c i r : th c i = TWantR r ->
       (get_locked = true -> forall j, holdsW (th c j) = false) ->
+      (get_locked = true -> wpref = true -> forall j x r', th c j <> TWantW x r') ->
       step c (mkC (updf (th c) i (TGet1 r)) (shq c) (outs c) (hist c) (absq c) (added c))
   | s_keys c i r : th c i = TGet1 r ->
       step c (mkC (updf (th c) i (TGet2 (keysq (shq c)) r)) (shq c) (outs c)
@@ -259,7 +262,7 @@ Section CQ.
 
   Lemma inv_step c c' : Inv c -> step c c' -> Inv c'.
   Proof.
-    intros I S. destruct S as [c i x r Ht|c i x r Ht G|c i x r Ht|c i x r Ht|c i r Ht|c i r Ht|c i r Ht G|c i r Ht|c i ks r Ht|c i l r Ht].
+    intros I S. destruct S as [c i x r Ht|c i x r Ht G|c i x r Ht|c i x r Ht|c i r Ht|c i r Ht|c i r Ht G G2|c i r Ht|c i ks r Ht|c i l r Ht].
     - (* call Add *)
       constructor; cbn [th shq outs hist absq added].
       + intros a b Hab Ha. thr a i; [rewrite hw_false in Ha by exact Logic.I; discriminate|].
@@ -501,6 +504,96 @@ Section CQ.
       exact (proj2 (queue_last_n A cap (adds_of (hist c)) Hcap)).
     - exact (i_idle c I).
   Qed.
+
+  (* ---------- no deadlock ---------- *)
+  Local Open Scope nat_scope.
+  (* n goroutines use the queue (all the others have nothing to do).  In every reachable configuration
+     either every goroutine has finished its program or some goroutine can take a step: the locking
+     discipline cannot deadlock - also under Go's rule that a waiting writer keeps new readers out. *)
+  Variable n : nat.
+
+  Definition finished (c : conf) : Prop := forall i, th c i = TIdle [].
+  Definition quiet_above (c : conf) : Prop := forall i, n <= i -> th c i = TIdle [].
+
+  Lemma quiet_step c c' : quiet_above c -> step c c' -> quiet_above c'.
+  Proof.
+    intros Q S i Hi. destruct S as [c j x r Ht|c j x r Ht G|c j x r Ht|c j x r Ht|c j r Ht|c j r Ht|c j r Ht G G2|c j r Ht|c j ks r Ht|c j l r Ht];
+      cbn [th]; (destruct (Nat.eq_dec i j) as [->|Hne]; [rewrite (Q j Hi) in Ht; discriminate|rewrite updf_other by exact Hne; exact (Q i Hi)]).
+  Qed.
+
+  Lemma quiet_reach prog c : (forall i, n <= i -> prog i = []) -> reach (init prog) c -> quiet_above c.
+  Proof.
+    intros Hp. induction 1 as [|c c' _ IH S]; [intros i Hi; cbn; rewrite (Hp i Hi); reflexivity|exact (quiet_step c c' IH S)].
+  Qed.
+
+  (* search among the first n goroutines *)
+  Fixpoint find_thread (p : tstate -> bool) (f : nat -> tstate) (k : nat) : option nat :=
+    match k with 0 => None | S k' => if p (f k') then Some k' else find_thread p f k' end.
+  Lemma find_some p f k i : find_thread p f k = Some i -> i < k /\ p (f i) = true.
+  Proof.
+    induction k as [|k IH]; cbn; [discriminate|]. destruct (p (f k)) eqn:E.
+    - intros H. injection H as <-. split; [lia|exact E].
+    - intros H. destruct (IH H). split; [lia|assumption].
+  Qed.
+  Lemma find_none p f k : find_thread p f k = None -> forall i, i < k -> p (f i) = false.
+  Proof.
+    induction k as [|k IH]; cbn; intros H i Hi; [lia|]. destruct (p (f k)) eqn:E; [discriminate|].
+    destruct (Nat.eq_dec i k) as [->|Hne]; [exact E|apply IH; [exact H|lia]].
+  Qed.
+
+  Definition is_wantW (t : tstate) : bool := match t with TWantW _ _ => true | _ => false end.
+  Definition is_wantR (t : tstate) : bool := match t with TWantR _ => true | _ => false end.
+  Definition is_call (t : tstate) : bool := match t with TIdle (_ :: _) => true | _ => false end.
+
+  Theorem no_deadlock c : quiet_above c -> (exists i, th c i <> TIdle []) -> exists c', step c c'.
+  Proof.
+    intros Q [i0 Hi0].
+    (* somebody holds the write lock: it can go on *)
+    destruct (find_thread holdsW (th c) n) as [i|] eqn:FW.
+    { destruct (find_some _ _ _ _ FW) as [_ Hw]. apply holdsW_true in Hw.
+      destruct Hw as [(x & r & E)|[(x & r & E)|(r & E)]]; eexists;
+        [exact (s_evict c i x r E)|exact (s_insert c i x r E)|exact (s_unlock c i r E)]. }
+    pose proof (find_none _ _ _ FW) as NW.
+    assert (NoW : forall j, holdsW (th c j) = false).
+    { intros j. destruct (Nat.lt_ge_cases j n) as [Hj|Hj]; [exact (NW j Hj)|]. rewrite (Q j Hj). apply hw_false. exact Logic.I. }
+    (* somebody holds the read lock: it can go on *)
+    destruct (find_thread holdsR (th c) n) as [i|] eqn:FR.
+    { destruct (find_some _ _ _ _ FR) as [_ Hr]. apply holdsR_true in Hr.
+      destruct Hr as [(r & E)|[(ks & r & E)|(l & r & E)]]; eexists;
+        [exact (s_keys c i r E)|exact (s_collect c i ks r E)|exact (s_runlock c i l r E)]. }
+    pose proof (find_none _ _ _ FR) as NR.
+    assert (NoR : forall j, holdsR (th c j) = false).
+    { intros j. destruct (Nat.lt_ge_cases j n) as [Hj|Hj]; [exact (NR j Hj)|]. rewrite (Q j Hj). apply hr_false. exact Logic.I. }
+    (* nobody holds the lock: a waiting writer gets it *)
+    destruct (find_thread is_wantW (th c) n) as [i|] eqn:FWW.
+    { destruct (find_some _ _ _ _ FWW) as [_ Hw]. destruct (th c i) as [| x r | | | | | | |] eqn:E; try discriminate.
+      eexists. apply (s_lock c i x r E). intros _ j. split; [exact (NoW j)|exact (NoR j)]. }
+    pose proof (find_none _ _ _ FWW) as NWW.
+    assert (NoWW : forall j x r, th c j <> TWantW x r).
+    { intros j x r E. destruct (Nat.lt_ge_cases j n) as [Hj|Hj].
+      - pose proof (NWW j Hj) as C. rewrite E in C. discriminate.
+      - rewrite (Q j Hj) in E. discriminate. }
+    (* no writer waits: a waiting reader gets the lock *)
+    destruct (find_thread is_wantR (th c) n) as [i|] eqn:FWR.
+    { destruct (find_some _ _ _ _ FWR) as [_ Hw]. destruct (th c i) as [| | | | | r | | |] eqn:E; try discriminate.
+      eexists. apply (s_rlock c i r E); [intros _; exact NoW|intros _ _; exact NoWW]. }
+    pose proof (find_none _ _ _ FWR) as NWR.
+    (* everybody is between operations: the one that has not finished calls its next operation *)
+    assert (Hi0n : i0 < n) by (destruct (Nat.lt_ge_cases i0 n) as [H|H]; [exact H|exfalso; exact (Hi0 (Q i0 H))]).
+    pose proof (NW i0 Hi0n) as A1. pose proof (NR i0 Hi0n) as A2. pose proof (NWW i0 Hi0n) as A3. pose proof (NWR i0 Hi0n) as A4.
+    destruct (th c i0) as [todo|x r|x r|x r|r|r|r|ks r|l r] eqn:E.
+    - destruct todo as [|o todo]; [exfalso; exact (Hi0 eq_refl)|]. destruct o as [x|]; eexists;
+        [exact (s_call_add c i0 x todo E)|exact (s_call_get c i0 todo E)].
+    - discriminate.
+    - rewrite hw_add1 in A1. discriminate.
+    - rewrite hw_add2 in A1. discriminate.
+    - rewrite hw_addu in A1. discriminate.
+    - discriminate.
+    - rewrite hr_get1 in A2. discriminate.
+    - rewrite hr_get2 in A2. discriminate.
+    - rewrite hr_getu in A2. discriminate.
+  Qed.
+
 End CQ.
 
 (* ---------- without the write lock the capacity is exceeded ---------- *)
@@ -515,22 +608,22 @@ Section Witness.
   Proof. discriminate. Qed.
 
   Theorem unlocked_exceeds_capacity :
-    exists c, reach nat false true (init nat 1%nat wprog) c /\ (length (q_items (shq nat c)) > 1)%nat.
+    exists c, reach nat false true false (init nat 1%nat wprog) c /\ (length (q_items (shq nat c)) > 1)%nat.
   Proof.
-    pose proof (r_refl nat false true (init nat 1%nat wprog)) as R.
-    match type of R with reach _ _ _ _ ?c => pose proof (r_step nat false true _ c _ R (s_call_add nat false true c 2%nat _ _ eq_refl)) as R' end; clear R; rename R' into R; cbv beta iota delta [th shq outs hist absq added] in R.
-    match type of R with reach _ _ _ _ ?c => pose proof (r_step nat false true _ c _ R (s_lock nat false true c 2%nat _ _ eq_refl (guard_off _))) as R' end; clear R; rename R' into R; cbv beta iota delta [th shq outs hist absq added] in R.
-    match type of R with reach _ _ _ _ ?c => pose proof (r_step nat false true _ c _ R (s_evict nat false true c 2%nat _ _ eq_refl)) as R' end; clear R; rename R' into R; cbv beta iota delta [th shq outs hist absq added] in R.
-    match type of R with reach _ _ _ _ ?c => pose proof (r_step nat false true _ c _ R (s_insert nat false true c 2%nat _ _ eq_refl)) as R' end; clear R; rename R' into R; cbv beta iota delta [th shq outs hist absq added] in R.
-    match type of R with reach _ _ _ _ ?c => pose proof (r_step nat false true _ c _ R (s_unlock nat false true c 2%nat _ eq_refl)) as R' end; clear R; rename R' into R; cbv beta iota delta [th shq outs hist absq added] in R.
-    match type of R with reach _ _ _ _ ?c => pose proof (r_step nat false true _ c _ R (s_call_add nat false true c 0%nat _ _ eq_refl)) as R' end; clear R; rename R' into R; cbv beta iota delta [th shq outs hist absq added] in R.
-    match type of R with reach _ _ _ _ ?c => pose proof (r_step nat false true _ c _ R (s_lock nat false true c 0%nat _ _ eq_refl (guard_off _))) as R' end; clear R; rename R' into R; cbv beta iota delta [th shq outs hist absq added] in R.
-    match type of R with reach _ _ _ _ ?c => pose proof (r_step nat false true _ c _ R (s_evict nat false true c 0%nat _ _ eq_refl)) as R' end; clear R; rename R' into R; cbv beta iota delta [th shq outs hist absq added] in R.
-    match type of R with reach _ _ _ _ ?c => pose proof (r_step nat false true _ c _ R (s_call_add nat false true c 1%nat _ _ eq_refl)) as R' end; clear R; rename R' into R; cbv beta iota delta [th shq outs hist absq added] in R.
-    match type of R with reach _ _ _ _ ?c => pose proof (r_step nat false true _ c _ R (s_lock nat false true c 1%nat _ _ eq_refl (guard_off _))) as R' end; clear R; rename R' into R; cbv beta iota delta [th shq outs hist absq added] in R.
-    match type of R with reach _ _ _ _ ?c => pose proof (r_step nat false true _ c _ R (s_evict nat false true c 1%nat _ _ eq_refl)) as R' end; clear R; rename R' into R; cbv beta iota delta [th shq outs hist absq added] in R.
-    match type of R with reach _ _ _ _ ?c => pose proof (r_step nat false true _ c _ R (s_insert nat false true c 0%nat _ _ eq_refl)) as R' end; clear R; rename R' into R; cbv beta iota delta [th shq outs hist absq added] in R.
-    match type of R with reach _ _ _ _ ?c => pose proof (r_step nat false true _ c _ R (s_insert nat false true c 1%nat _ _ eq_refl)) as R' end; clear R; rename R' into R; cbv beta iota delta [th shq outs hist absq added] in R.
+    pose proof (r_refl nat false true false (init nat 1%nat wprog)) as R.
+    match type of R with reach _ _ _ _ _ ?c => pose proof (r_step nat false true false _ c _ R (s_call_add nat false true false c 2%nat _ _ eq_refl)) as R' end; clear R; rename R' into R; cbv beta iota delta [th shq outs hist absq added] in R.
+    match type of R with reach _ _ _ _ _ ?c => pose proof (r_step nat false true false _ c _ R (s_lock nat false true false c 2%nat _ _ eq_refl (guard_off _))) as R' end; clear R; rename R' into R; cbv beta iota delta [th shq outs hist absq added] in R.
+    match type of R with reach _ _ _ _ _ ?c => pose proof (r_step nat false true false _ c _ R (s_evict nat false true false c 2%nat _ _ eq_refl)) as R' end; clear R; rename R' into R; cbv beta iota delta [th shq outs hist absq added] in R.
+    match type of R with reach _ _ _ _ _ ?c => pose proof (r_step nat false true false _ c _ R (s_insert nat false true false c 2%nat _ _ eq_refl)) as R' end; clear R; rename R' into R; cbv beta iota delta [th shq outs hist absq added] in R.
+    match type of R with reach _ _ _ _ _ ?c => pose proof (r_step nat false true false _ c _ R (s_unlock nat false true false c 2%nat _ eq_refl)) as R' end; clear R; rename R' into R; cbv beta iota delta [th shq outs hist absq added] in R.
+    match type of R with reach _ _ _ _ _ ?c => pose proof (r_step nat false true false _ c _ R (s_call_add nat false true false c 0%nat _ _ eq_refl)) as R' end; clear R; rename R' into R; cbv beta iota delta [th shq outs hist absq added] in R.
+    match type of R with reach _ _ _ _ _ ?c => pose proof (r_step nat false true false _ c _ R (s_lock nat false true false c 0%nat _ _ eq_refl (guard_off _))) as R' end; clear R; rename R' into R; cbv beta iota delta [th shq outs hist absq added] in R.
+    match type of R with reach _ _ _ _ _ ?c => pose proof (r_step nat false true false _ c _ R (s_evict nat false true false c 0%nat _ _ eq_refl)) as R' end; clear R; rename R' into R; cbv beta iota delta [th shq outs hist absq added] in R.
+    match type of R with reach _ _ _ _ _ ?c => pose proof (r_step nat false true false _ c _ R (s_call_add nat false true false c 1%nat _ _ eq_refl)) as R' end; clear R; rename R' into R; cbv beta iota delta [th shq outs hist absq added] in R.
+    match type of R with reach _ _ _ _ _ ?c => pose proof (r_step nat false true false _ c _ R (s_lock nat false true false c 1%nat _ _ eq_refl (guard_off _))) as R' end; clear R; rename R' into R; cbv beta iota delta [th shq outs hist absq added] in R.
+    match type of R with reach _ _ _ _ _ ?c => pose proof (r_step nat false true false _ c _ R (s_evict nat false true false c 1%nat _ _ eq_refl)) as R' end; clear R; rename R' into R; cbv beta iota delta [th shq outs hist absq added] in R.
+    match type of R with reach _ _ _ _ _ ?c => pose proof (r_step nat false true false _ c _ R (s_insert nat false true false c 0%nat _ _ eq_refl)) as R' end; clear R; rename R' into R; cbv beta iota delta [th shq outs hist absq added] in R.
+    match type of R with reach _ _ _ _ _ ?c => pose proof (r_step nat false true false _ c _ R (s_insert nat false true false c 1%nat _ _ eq_refl)) as R' end; clear R; rename R' into R; cbv beta iota delta [th shq outs hist absq added] in R.
     eexists. split; [exact R|]. vm_compute. lia.
   Qed.
 End Witness.
